@@ -325,7 +325,10 @@ def rules(P, R, prefix="C13"):
             adr = [n for n in hr.nodes() if n["k"] == "mcall" and n["name"] == "mempool_address"]
             for i, n in enumerate(adr):
                 par = hr.parents().get(id(n))
-                R.judge(par is not None and par["k"] == "match", prefix + ".E5", key(hr, "unknown requesters are skipped, not unwrapped" + tag, i), n["sp"], par["k"] if par else "", "requester address lookup is consumed by `%s`" % (par["k"] if par else None))
+                # consumed by a construct that handles None (match / if let / let-else), not by unwrap/expect/index
+                okm = par is not None and (par["k"] in ("match", "let") or (par["k"] == "slet" and "els" in par)
+                                           or (par["k"] == "mcall" and par["name"] in ("is_some", "is_none", "map", "and_then", "ok_or", "ok_or_else")))
+                R.judge(okm, prefix + ".E5", key(hr, "unknown requesters are skipped, not unwrapped" + tag, i), n["sp"], par["k"] if par else "", "requester address lookup is consumed by `%s`" % (par["k"] if par else None))
 
 
 def check(P, R, tier):
